@@ -609,7 +609,16 @@ func (lv *c10Live) exec(e *Env, c int, op c10Op) bool {
 		receipt.ContractAddress = common.HexToAddress(op.Created)
 		lv.universe = append(lv.universe, receipt.ContractAddress)
 	}
-	msg := ethtypes.NewMessage(f.pool[7], to, 0, big.NewInt(0), 0, gasPrice, big.NewInt(0), big.NewInt(0), nil, ethtypes.AccessList{}, true)
+	// a dynamic-fee (EIP-1559) transaction: the message's GasPrice is already the EFFECTIVE price min(tip + base fee, cap);
+	// its fee cap is larger and its tip smaller.  The fee that leaves the collector is gas used x the effective price,
+	// so cap and tip must not matter: derived from the operation (no extra generator state) for every third message
+	feeCap, tipCap := big.NewInt(0), big.NewInt(0)
+	if h := new(big.Int).Add(gasUsed, gasPrice); new(big.Int).Mod(h, big.NewInt(3)).Sign() == 0 {
+		feeCap = new(big.Int).Add(new(big.Int).Mul(gasPrice, big.NewInt(3)), big.NewInt(1000))
+		tipCap = new(big.Int).Div(gasPrice, big.NewInt(2))
+		e.Stats.Count("message:dynamic-fee(cap>effective-price)")
+	}
+	msg := ethtypes.NewMessage(f.pool[7], to, 0, big.NewInt(0), 0, gasPrice, feeCap, tipCap, nil, ethtypes.AccessList{}, true)
 	err := Try(lv.ctx, func(cc sdk.Context) error { return f.a.CSRKeeper.Hooks().PostTxProcessing(cc, msg, receipt) })
 	e.Stats.Evaluations++
 	if err == nil {
